@@ -335,10 +335,14 @@ def parse_model_answer(m, q):
 
 
 def run_population(ck, rng, scratch, tpl, files, time_cov, queries, extra, use_model=True, zipfs=False, tag="gen",
-                   ddirs=None):
+                   ddirs=None, spelling=None):
     """one directory tree + its queries on real code, model and oracle"""
     root = tempfile.mkdtemp(dir=scratch)
+    cwd0 = os.getcwd()
+    if spelling is None:       # how the user wrote the template: absolute, or relative to the working directory
+        spelling = rng.choice(G.SPELLINGS)
     try:
+        os.chdir(root)         # relative templates are resolved against the working directory on every access
         if ddirs is None:
             ddirs = G.decoy_dirs(rng, tpl, files, rng.choice([0, 1, 3]))
         paths = G.build_tree(root, tpl, files, rng, ddirs=ddirs)
@@ -349,11 +353,12 @@ def run_population(ck, rng, scratch, tpl, files, time_cov, queries, extra, use_m
             fs = G.make_fileset(root, tpl, time_cov, fs=ZipFileSystem(zp))
         else:
             ids = paths
-            fs = G.make_fileset(root, tpl, time_cov)
+            fs = G.make_fileset(root, tpl, time_cov, spelling=spelling)
         paths_of = {i: p for p, i in ids.items()}
         honour = G.honours(tpl, files)
         base_case = {"op": "find", "template": tpl.to_json(), "files": [f.to_json() for f in files],
-                     "time_cov_us": None if time_cov is None else time_cov // G.US, "zip": zipfs, "decoy_dirs": ddirs}
+                     "time_cov_us": None if time_cov is None else time_cov // G.US, "zip": zipfs, "decoy_dirs": ddirs,
+                     "spelling": "abs" if zipfs else spelling}
         byid = {f.id: f for f in files}
         # The coverage the code derives from a name must be the one the name states (the harness wrote
         # the start and end stamps itself).  When it is not, find() works on a wrong coverage: add the
@@ -409,7 +414,7 @@ def run_population(ck, rng, scratch, tpl, files, time_cov, queries, extra, use_m
                 nsel = len(val if q["bundle"] is None else [i for b in val for i in b])
             nontriv = kind == "ok" and 0 < nsel and len(files) > 1
             ck.case(key=(tpl.text(), tuple(sorted((f.rel[-1], G.us(f.t0)) for f in files[:6])), json.dumps(query_json(q), sort_keys=True)) if nontriv else None,
-                    kind=f"{tag}/depth{len(tpl.dirs)}/{'honour' if honour else 'violating'}/{q['kind']}/"
+                    kind=f"{tag}{'' if zipfs or spelling == 'abs' else '-relpath'}/depth{len(tpl.dirs)}/{'honour' if honour else 'violating'}/{q['kind']}/"
                          f"{'err-' + val if kind == 'err' else ('some' if 0 < nsel < len(files) else ('all' if nsel else 'none'))}",
                     sample={"template": tpl.text(), "files": len(files), "start": G.iso(q["start"]), "end": G.iso(q["end"]),
                             "bundle": q["bundle"], "filters": q["filters"], "found": nsel})
@@ -465,6 +470,7 @@ def run_population(ck, rng, scratch, tpl, files, time_cov, queries, extra, use_m
             if out is not None and out[eidx + 2 + j].strip() != got:
                 ck.disagree(f"{x['op']}: model '{out[eidx + 2 + j]}' vs code '{got}' on '{tpl.text()}'", case)
     finally:
+        os.chdir(cwd0)
         shutil.rmtree(root, ignore_errors=True)
 
 
@@ -586,7 +592,7 @@ def run_case_json(ck, c, scratch, use_model=True):
                 x[k] = G.from_iso(x[k])
         extra.append(x)
     run_population(ck, random.Random(0), scratch, tpl, files, tc, queries, extra, use_model, zipfs=bool(c.get("zip")), tag="corpus",
-                   ddirs=c.get("decoy_dirs") or [])
+                   ddirs=c.get("decoy_dirs") or [], spelling=c.get("spelling", "abs"))
 
 
 def explore(ck, n, scratch, use_model=True, zip_share=0.0):
